@@ -293,13 +293,23 @@ pub fn run(args: &Args) {
                 }
                 let nargs = rng.below(5);
                 let texts: Vec<&str> = (0..nargs).map(|_| ARG_TEXTS[rng.below(ARG_TEXTS.len())]).collect();
-                let wrap = rng.below(3);
+                let wrap = rng.below(7);
                 let call = format!("{}({})", probe, texts.join(", "));
                 let (text, current, doc_used): (String, Value, Value) = match wrap {
-                    0 => (call.clone(), doc.clone(), doc.clone()),
-                    1 => (format!("x | {}", call), doc.clone(), json!({ "x": doc })),
+                    0 | 1 => (call.clone(), doc.clone(), doc.clone()),
+                    2 => (format!("x | {}", call), doc.clone(), json!({ "x": doc })),
+                    // the call at the end of a chain whose earlier steps yield null: it is still a call
+                    // (made with null as the current node), not something a null on the left may skip
+                    3 => (format!("nothing_here | zz.{}", call), Value::Null, doc.clone()),
+                    4 => (format!("nothing_here | zz[0].{}", call), Value::Null, doc.clone()),
+                    5 => (format!("(nothing_here).zz.yy.{}", call), Value::Null, doc.clone()),
                     _ => (format!("[@][0] | {}", call), doc.clone(), doc.clone()),
                 };
+                // the same text compiled through the DEFAULT runtime first, on this thread: what another
+                // runtime compiled (or cached) must not leak into this one
+                if rng.chance(1, 3) {
+                    let _ = guarded(|| jmespath::compile(&text).and_then(|e| e.search(rcvar_of(&doc_used))));
+                }
                 let ref_args: Vec<Arg> = texts.iter().map(|t| arg_value(t, &current, &strict, &ev)).collect();
                 // model prediction
                 #[derive(Debug)]
@@ -402,6 +412,9 @@ pub fn run(args: &Args) {
         }
         // argument order / laziness with recording functions used as arguments
         order_probe(&mut rep, &mut rng, &mut next_id);
+        for _ in 0..6 {
+            operand_probe(&mut rep, &mut rng, &mut next_id);
+        }
         for _ in 0..4 {
             projection_probe(&mut rep, &mut rng, &mut next_id, &ev, &strict);
         }
@@ -460,6 +473,54 @@ fn order_probe(rep: &mut Report, rng: &mut Rng, next_id: &mut u64) {
         rep.violation(
             "C15/argument-evaluation-order-or-laziness",
             json!({"expression": text, "expected_call_log": format!("{:?}", expected), "observed_call_log": format!("{:?}", log)}),
+        );
+    }
+}
+
+/// Both operands of a comparison are evaluated, once each and left to right, whatever the
+/// left one yields; `&&` / `||` evaluate the right operand exactly when the specification's
+/// short-circuit rule says so; multi-select members are evaluated once each in source order.
+fn operand_probe(rep: &mut Report, rng: &mut Rng, next_id: &mut u64) {
+    let mut rt = Runtime::new();
+    rt.register_builtin_functions();
+    *next_id += 2;
+    let (i1, i2) = (*next_id - 1, *next_id);
+    rt.register_function("r1", Box::new(recorder(i1, true)));
+    rt.register_function("r2", Box::new(recorder(i2, true)));
+    const OPERANDS: [(&str, bool); 10] = [
+        ("'s'", true), ("`1`", true), ("`null`", false), ("`false`", false), ("`[]`", false), ("`{}`", false), ("''", false), ("`0`", true), ("name", true), ("missing", false),
+    ];
+    const OPS: [&str; 8] = ["==", "!=", "<", "<=", ">", ">=", "&&", "||"];
+    let (x, xt) = OPERANDS[rng.below(OPERANDS.len())];
+    let (y, _) = OPERANDS[rng.below(OPERANDS.len())];
+    let op = OPS[rng.below(OPS.len())];
+    let form = rng.below(4);
+    let text = match form {
+        0 => format!("r1({}) {} r2({})", x, op, y),
+        1 => format!("recs[?r1({}) {} r2({})] | [0]", x, op, y),
+        2 => format!("[r1({}), r2({})]", x, y),
+        _ => format!("{{p: r1({}), q: r2({})}}", x, y),
+    };
+    let doc = json!({"name": "bob", "recs": [{"name": "ann"}]});
+    let right_runs = match (form, op) {
+        (0, "&&") | (1, "&&") => xt,
+        (0, "||") | (1, "||") => !xt,
+        _ => true,
+    };
+    let want: Vec<u64> = if right_runs { vec![i1, i2] } else { vec![i1] };
+    rep.evaluations += 1;
+    LOG.with(|l| l.borrow_mut().clear());
+    let got = guarded(|| rt.compile(&text).and_then(|e| e.search(rcvar_of(&doc))));
+    let log: Vec<u64> = LOG.with(|l| l.borrow().iter().map(|r| r.id).collect());
+    let ok = matches!(got, Ok(Ok(_))) && (log == want || (form == 3 && { let mut a = log.clone(); a.sort(); a == want }));
+    if ok {
+        rep.count("operands_evaluated_as_specified");
+        rep.nontrivial(fnv(text.as_bytes()));
+    } else {
+        rep.violation(
+            "C15/operand-not-evaluated-exactly-once-in-order",
+            json!({"expression": text, "document": doc, "expected_calls(r1=first id, r2=second)": want, "observed_calls": log,
+                   "result": format!("{:?}", got.map(|r| r.map(|v| v.to_string()).map_err(|e| e.to_string())))}),
         );
     }
 }
